@@ -786,6 +786,10 @@ def _c10() -> List[Obl]:
             out.append(Obl(id=f"c10.names.{mech}.{E.upper()}", prop="C10", engine="native", target=f"c10_names:c10_names_{mech}_{E}", kind="bounded",
                            bound="concrete execution: all 59 named values of Codes (aliases Zeta{1}, Rice{0}, Pi{0}, Golomb{1,2,4,8}, ExpGolomb{0} included) x 11 values, 5 preceding bits",
                            fns=[what + " for every named enumeration value"]))
+    for E in ("be", "le"):
+        out.append(Obl(id=f"c10.with_func.{E.upper()}", prop="C10", engine="native", target=f"c10_with_func:c10_with_func_{E}", kind="bounded",
+                       bound="concrete execution: 11 values; caller-supplied zeta_4 functions; 8 codes for the pointers handed out",
+                       fns=["FuncCodeReader/FuncCodeWriter/FuncCodeLen::{new_with_func,get_func}", "FactoryFuncCodeReader::{new_with_func,inner}"]))
     for t in ("len", "writer", "reader"):
         out.append(Obl(id=f"c10.unsupported.{t}", prop="C10", engine="native", target=f"c10_unsupported:c10_unsupported_{t}", kind="bounded",
                        bound="concrete execution: 32 unsupported codes", fns=[f"FuncCode{t.capitalize() if t != 'len' else 'Len'}::new (rejection)"]))
